@@ -1273,6 +1273,15 @@ func (r *raft) Step(m *pb.Message) error {
 		} else {
 			r.logger.Infof("%x [logterm: %d, index: %d, vote: %x] rejected %s from %x [logterm: %d, index: %d] at term %d",
 				r.id, lastID.term, lastID.index, r.Vote, m.GetType(), m.GetFrom(), candLastID.term, candLastID.index, r.Term)
+			if r.Term == 0 {
+				// Only reachable for a MsgPreVote (a MsgVote raises our term
+				// first) at a node that restarted with log entries but without
+				// a persisted HardState, e.g. after a crash between writing
+				// Entries and HardState. A response must carry a non-zero term
+				// (see send); there is none to report yet, so stay silent, which
+				// is always a legal answer to a vote request.
+				return nil
+			}
 			r.send(&pb.Message{To: m.From, Term: new(r.Term), Type: voteRespMsgType(m.GetType()).Enum(), Reject: new(true)})
 		}
 
